@@ -304,7 +304,7 @@ prop(
     "C16",
     level="other",
     design_ref="DESIGN.md section 3, C16",
-    groups=[(["./plugin/action/throttle"], r"^(rebuildBuckets|\(\*simpleBuckets\)\.(rebuild\$1|add|get|reset)|\(\*inMemoryLimiter\)\.(isAllowed|rebuildBuckets))$"),
+    groups=[(["./plugin/action/throttle"], r"^(rebuildBuckets|\(\*simpleBuckets\)\.(rebuild\$1|add|get|reset)|\(\*inMemoryLimiter\)\.(isAllowed|rebuildBuckets)|\(\*limitersMap\)\.getOrAdd)$"),
             (["./plugin/action/throttle", "./pipeline"], r"^\(\*rule\)\.isMatch$")],
     claim=(
         "In-memory throttle with simple buckets, for all event times and clock positions (bucket ids are arbitrary integers): rebuildBuckets keeps maxID == minID + count - 1, never moves the window backwards, "
